@@ -9,6 +9,9 @@ import (
 // Opts steer the random generator. The zero value generates only constructs that the unchanged
 // compiler is known (by probes, see KNOWN_FINDINGS.txt) to handle; the flags below add the
 // constructs that exercise recorded findings.
+// StmtVarNames: prefixes of the variables declared by `- name := …` statements
+var StmtVarNames = []string{"w", "format", "iffy", "elsewhere", "switchy", "fortune_", "else_"}
+
 type Opts struct {
 	Layouts      int  // number of layout templates available to @render (L0..)
 	MaxDepth     int
@@ -352,8 +355,10 @@ func (g *G) Block(depth int) []*Node {
 			}
 		case 14:
 			g.nVar++
-			out = append(out, &Node{Kind: KStmt, Code: fmt.Sprintf("w%d := s1 + \"!\"", g.nVar)})
-			out = append(out, &Node{Kind: KScript, Expr: fmt.Sprintf("w%d", g.nVar)})
+			// variables whose names merely begin with a control-flow keyword are plain statements
+			name := fmt.Sprintf("%s%d", g.pick(StmtVarNames...), g.nVar)
+			out = append(out, &Node{Kind: KStmt, Code: name + " := s1 + \"!\""})
+			out = append(out, &Node{Kind: KScript, Expr: name})
 		case 15:
 			out = append(out, &Node{Kind: KRubyComment, Code: g.pick("note", "todo: x")})
 		}
